@@ -455,7 +455,7 @@ fn bounded_family(len: usize) -> Vec<Case> {
 
 pub fn run(ctx: &Ctx, rep: &mut Report) {
     crate::interpose::virtual_clock(true);
-    let n = ctx.amount(16_000, 300_000);
+    let n = ctx.amount(60_000, 600_000);
     explore(ctx, rep, "schedules", n, case_strategy(), |c| guard(ctx, c));
     if rep.failures.is_empty() {
         let len = if ctx.quick() { 12 } else { 24 };
